@@ -50,11 +50,13 @@ Layout buildLayout(const Plan& plan) {
 		m.name = unquoteToken(l.get("name"));
 		if (it->second.clm) { m.name = m.name.substr(0, 8); for (auto& c : m.name) if (!(isalnum(static_cast<unsigned char>(c)) || c == '_')) c = '_'; }
 		if (m.name.empty()) continue;
+		if (!it->second.clm && l.u("dotslash", 0)) m.name = "./" + m.name; // a foreign archive may store such a name
 		m.data = prngBytes(l.u("cseed"), static_cast<size_t>(l.u("len")));
 		m.stored = m.data;
 		m.size = static_cast<uint32_t>(m.data.size());
 		bool clash = false;
-		for (auto& o : it->second.members) if (ref::nameEqualNoCase(o.name, m.name)) clash = true;
+		auto bare = [](const std::string& n) { return n.rfind("./", 0) == 0 ? n.substr(2) : n; };
+		for (auto& o : it->second.members) if (ref::nameEqualNoCase(bare(o.name), bare(m.name))) clash = true;
 		if (!clash) it->second.members.push_back(m);
 	}
 	// names that sit in a volume's name table without a valid index entry (unused slots): they are NOT members
@@ -120,7 +122,10 @@ struct ResourceLayout : Family {
 		for (size_t i = 0; i < nloose; ++i) { Line l = mkline("world", "loose"); l.set("name", quoteToken(pick())).set("cseed", hex64(r.next())).set("len", r.below(300)); p.world.push_back(l); }
 		size_t nsub = static_cast<size_t>(r.below(3));
 		for (size_t i = 0; i < nsub; ++i) { Line l = mkline("world", "subdir"); l.set("name", quoteToken(r.chance(1, 2) ? (r.chance(1, 2) ? "zz.vol" : "zq.clm") : pick())); p.world.push_back(l); }
-		size_t nar = static_cast<size_t>(r.below(thorough ? 6 : 5));
+		// one run in ten: foreign VOL archives whose STORED names carry a leading "./"; such worlds exercise the archive lookups only
+		// (the listing clauses speak of names "equal ignoring case", which says nothing about a stored "./")
+		bool dotslash = r.chance(1, 10);
+		size_t nar = static_cast<size_t>(dotslash ? r.range(1, 4) : r.below(thorough ? 6 : 5));
 		for (size_t k = 0; k < nar; ++k) {
 			bool clm = r.chance(1, 3);
 			Line a = mkline("world", "archive");
@@ -128,13 +133,14 @@ struct ResourceLayout : Family {
 			p.world.push_back(a);
 			if (!clm && r.chance(1, 3)) { size_t ns = static_cast<size_t>(r.range(1, 2)); for (size_t i = 0; i < ns; ++i) { Line sp = mkline("world", "asurplus"); sp.set("ar", k).set("name", quoteToken(pick())); p.world.push_back(sp); } }
 			size_t nm = static_cast<size_t>(r.chance(1, 20) ? r.range(17, 30) : r.below(6));
-			for (size_t i = 0; i < nm; ++i) { Line m = mkline("world", "amember"); m.set("ar", k).set("name", quoteToken(r.chance(4, 5) ? pick() : randName(r, 1, 8, false))).set("cseed", hex64(r.next())).set("len", r.below(300)); p.world.push_back(m); }
+			for (size_t i = 0; i < nm; ++i) { Line m = mkline("world", "amember"); m.set("ar", k).set("name", quoteToken(r.chance(4, 5) ? pick() : randName(r, 1, 8, false))).set("cseed", hex64(r.next())).set("len", r.below(300)); if (dotslash && r.chance(1, 2)) m.set("dotslash", 1); p.world.push_back(m); }
 		}
 		size_t nops = static_cast<size_t>(r.range(6, thorough ? 40 : 24));
 		for (size_t i = 0; i < nops; ++i) {
 			Line op;
 			uint64_t c = r.below(100);
 			std::string q = r.chance(1, 8) ? randName(r, 1, 6, false) : caseVariant(pool[r.below(pool.size())], r.below(6));
+			if (dotslash) c = 83 + c % 17; // archives / arcq only
 			if (c < 40) { op = mkline("op", "get"); op.set("q", quoteToken(q)).set("arch", r.chance(3, 4) ? 1 : 0); }
 			else if (c < 45) { op = mkline("op", "get"); op.set("q", quoteToken(r.chance(1, 2) ? "/" + q : "/abs/" + q)).set("arch", 1); }
 			else if (c < 57) { op = mkline("op", "type"); op.set("ext", quoteToken(std::string(EXT[r.below(4)]))).set("arch", r.chance(3, 4) ? 1 : 0); }
@@ -163,7 +169,7 @@ struct ResourceLayout : Family {
 			direct.push_back(std::move(ar));
 		}
 		auto isLooseFile = [&](const std::string& q) { std::string p = std::string(kDir) + "/" + q; return disk::exists(p) && !disk::isDir(p); };
-		auto matchName = [&](const std::string& member, const std::string& q) { std::string a = lower(member), b = lower(q); if (b.rfind("./", 0) == 0) b = b.substr(2); return a == b; };
+		auto matchName = [&](const std::string& member, const std::string& q) { std::string a = lower(member), b = lower(q); if (a.rfind("./", 0) == 0) a = a.substr(2); if (b.rfind("./", 0) == 0) b = b.substr(2); return a == b; };
 		bool any = false;
 		for (size_t oi = 0; oi < plan.ops.size(); ++oi) {
 			const Line& op = plan.ops[oi];
